@@ -8,6 +8,7 @@ from common import Driver, f2b, b2f
 MODELLED = {"euclidean", "seuclidean", "manhattan", "chebyshev", "minkowski", "wminkowski", "mahalanobis", "canberra",
             "braycurtis", "cosine", "correlation", "hellinger", "haversine", "hyperboloid", "symmetric_kl",
             "spherical_gaussian_energy", "diagonal_gaussian_energy"}
+TIES_SMOOTH = {"euclidean", "seuclidean", "minkowski", "wminkowski", "mahalanobis", "cosine", "correlation", "hellinger", "symmetric_kl"}
 FIXED_DIM = {"haversine": 2, "spherical_gaussian_energy": 3, "diagonal_gaussian_energy": 4, "gaussian_energy": 5}
 
 
@@ -29,9 +30,14 @@ def point(rng, cname):
         y[2:] = rng.uniform(0.4, 2.0, dim - 2) * rng.choice([-1, 1], dim - 2)
         if cname == "gaussian_energy":
             x[4], y[4] = rng.uniform(-1.2, 1.2), rng.uniform(-1.2, 1.2)
+    # exact ties x_i == y_i in some coordinates (integer-valued / repeated data): smooth points of every metric listed here
+    if cname in TIES_SMOOTH and dim >= 2 and rng.random() < 0.3:
+        tie = rng.random(dim) < 0.4
+        tie[int(rng.integers(dim))] = False
+        y = np.where(tie, x, y)
     d = np.abs(x - y)
-    # margins from kinks
-    if cname in ("manhattan", "minkowski", "wminkowski", "canberra", "braycurtis", "chebyshev") and np.min(d) < 1e-2:
+    # margins from kinks (minkowski / wminkowski are only exercised with p >= 1.25, where |t|^p is differentiable at 0)
+    if cname in ("manhattan", "canberra", "braycurtis", "chebyshev") and np.min(d) < 1e-2:
         return None
     if cname in ("canberra",) and (np.min(np.abs(x)) < 1e-2 or np.min(np.abs(x) + np.abs(y)) < 1e-2):
         return None
@@ -62,7 +68,7 @@ def run(ctx):
     rng = ctx.rng
     names = sorted(D.named_distances_with_gradients)
     ctx.rule = ("for every name in named_distances_with_gradients: random points kept away from kinks (|x_i-y_i|>=1e-2 where an absolute "
-                "value is differentiated, no near-ties for chebyshev, distance >= 0.1), dims 1..32, all parameters; returned gradient vs "
+                "value is differentiated, exact coordinate ties x_i=y_i included where the metric is smooth there, minkowski p in {1.25..3}, no near-ties for chebyshev, distance >= 0.1), dims 1..32, all parameters; returned gradient vs "
                 "central finite differences (two step sizes) of the implementation's own returned distance (direction cosine >= 1-1e-4, "
                 "magnitude within 2e-3), and vs the Lean model; non-trivial = every accepted point; rejected points are counted")
     ctx.assumptions += ["gradients returned as float32 arrays and float32 internals: 1e-4 relative", "regularising constants (1e-6/1e-8) are below the tolerance at distance >= 0.1"]
@@ -82,9 +88,10 @@ def run(ctx):
                 continue
             x, y = pt
             args, extra = mg.params_for(rng, cname, len(x))
-            if cname in ("minkowski", "wminkowski") and args[-1] == 1.0:
-                args = args[:-1] + (1.5,)
-                extra = extra[:-1] + [1.5]
+            if cname in ("minkowski", "wminkowski") and (args[-1] == 1.0 or rng.random() < 0.3):
+                pp = float(rng.choice([1.25, 1.5, 1.75]))
+                args = args[:-1] + (pp,)
+                extra = extra[:-1] + [pp]
             case = {"metric": name, "x": x.tolist(), "y": y.tolist(),
                     "params": [a.tolist() if isinstance(a, np.ndarray) else a for a in args]}
             x0, y0 = x.copy(), y.copy()
@@ -98,6 +105,11 @@ def run(ctx):
                 ctx.skip(f"rejected: distance below 1e-2, the kink of a root-type distance ({cname})")
                 continue
             g = np.asarray(g, dtype=np.float64)[:len(x)]
+            if not np.all(np.isfinite(g)) and np.isfinite(float(d)):
+                done += 1
+                ctx.violation("gradient", f"{name}: non-finite gradient {g.tolist()} at a point where the returned distance ({float(d):.6g}) "
+                                          f"is finite and differentiable", case, key=f"C14:{cname}_grad")
+                continue
             g1 = fd_grad(f, x0, y0, args, 1e-4)
             g2 = fd_grad(f, x0, y0, args, 3e-4)
             if np.linalg.norm(g1 - g2) > 5e-3 * max(1e-3, np.linalg.norm(g1)):
